@@ -105,7 +105,7 @@ prop("C15", "proof", "refinement of ParserBuffer to (fed, Off) with the 7-byte m
      "as C01", GEN_RULE, "§8 C15")
 prop("C16", "proof", "NewParser ⇔ Verify∘SetDefaults over Int fields; panic guards in the model are values; boundary configurations through several fills under recover and watchdog",
      "Lean 4 proof + differential correspondence on wild configurations",
-     [S("c-config", 300, 5000, ["c.newparser.accepted", "c.newparser.rejected"]), S("p-general", 200, 3000, ["p.parse.matches"])],
+     [S("c-config", 300, 5000, ["c.newparser.accepted", "c.newparser.rejected"]), S("p-general", 200, 3000, ["p.parse.matches"]), S("p-wrap", 100, 1500, ["w.eof"])],
      "BufferSize ≤ MaxInt32 for GSAP/OSAP is a stated bound (D18)", GEN_RULE, "§8 C16")
 prop("C17", "proof", "n, k, l and Off exactness as part of the decoder refinement; scripts biased to a full buffer with already-read bytes",
      "Lean 4 refinement proof + differential correspondence",
